@@ -18,19 +18,13 @@ fn any_indices_i32(idx: &[i32; K], idx_valid: u8, with_nulls: bool) -> Primitive
     PrimitiveArray::<Int32Type>::new(ScalarBuffer::from(idx.to_vec()), nulls)
 }
 
-//@ tier: quick
-//@ functions: arrow_select::take::take_native::<i16, Int32Type>
-//@ bound: 3 values, 3 Int32 indices with symbolic validity (validity buffer present or absent), duplicates allowed; valid indices in range (the dispatcher's check_bounds / documented precondition), indices under null slots arbitrary: output row k = values[index k] for valid k; unwind 6
-//@ assume: valid indices are within 0..values.len() (take() verifies this when CheckBounds is requested and documents it otherwise)
-//@ stub: alloc::fmt::format -> empty String
-#[kani::proof]
-#[kani::unwind(6)]
-#[kani::stub(alloc::fmt::format, stub_format)]
-fn c03_take_native_i32_indices() {
+// `with_nulls` (and `with_vnulls`, `boff` below) are compile-time constants of each instance: an Option that is
+// Some or None depending on a symbolic bool carries a payload that is symbolic on every path, which makes the
+// offsets and lengths inside it symbolic too (memory cap).
+fn take_native_model(with_nulls: bool) {
     let vals: [i16; V] = kani::any();
     let idx: [i32; K] = kani::any();
     let idx_valid: u8 = kani::any();
-    let with_nulls: bool = kani::any();
     kani::assume(idx_valid < 8);
     let mut j = 0;
     while j < K {
@@ -47,31 +41,43 @@ fn c03_take_native_i32_indices() {
     if !with_nulls || (idx_valid >> k) & 1 == 1 {
         assert!(out[k] == vals[idx[k] as usize], "row k = selected value");
     }
-    kani::cover!(with_nulls && idx_valid == 0b101 && idx[1] < 0, "garbage index under a null slot");
+    kani::cover!(!with_nulls || (idx_valid == 0b101 && idx[1] < 0), "garbage index under a null slot");
     kani::cover!(idx[0] == idx[2] && (!with_nulls || idx_valid == 7), "duplicate indices");
     std::mem::forget(out);
     std::mem::forget(indices);
 }
 
 //@ tier: quick
-//@ functions: arrow_select::take::{take_bits::<Int32Type>, take_nulls::<Int32Type>}
-//@ bound: 3 boolean values at bit offset 0..=9 with optional validity, 3 Int32 indices with optional validity: output bit k = value bit index k (valid k); output row k is null iff index k is null or selects a null value; unwind 6
-//@ assume: valid indices are within range
+//@ functions: arrow_select::take::take_native::<i16, Int32Type>
+//@ bound: 3 values, 3 Int32 indices with a validity buffer of arbitrary content, duplicates allowed; valid indices in range (the dispatcher's check_bounds / documented precondition), indices under null slots arbitrary: output row k = values[index k] for valid k; unwind 6
+//@ assume: valid indices are within 0..values.len() (take() verifies this when CheckBounds is requested and documents it otherwise)
 //@ stub: alloc::fmt::format -> empty String
 #[kani::proof]
 #[kani::unwind(6)]
 #[kani::stub(alloc::fmt::format, stub_format)]
-fn c03_take_bits_and_nulls() {
+fn c03_take_native_i32_indices_with_nulls() {
+    take_native_model(true);
+}
+
+//@ tier: quick
+//@ functions: arrow_select::take::take_native::<i16, Int32Type>
+//@ bound: as c03_take_native_i32_indices_with_nulls, indices without a validity buffer; unwind 6
+//@ assume: indices are within 0..values.len()
+//@ stub: alloc::fmt::format -> empty String
+#[kani::proof]
+#[kani::unwind(6)]
+#[kani::stub(alloc::fmt::format, stub_format)]
+fn c03_take_native_i32_indices_no_nulls() {
+    take_native_model(false);
+}
+
+fn take_bits_model(boff: usize, with_vnulls: bool, with_nulls: bool, check_bits: bool) {
     let bits: u16 = kani::any();
-    let boff: usize = kani::any();
-    kani::assume(boff <= 9);
     let values = BooleanBuffer::new(Buffer::from_vec(bits.to_le_bytes().to_vec()), boff, V);
     let vvalid: u8 = kani::any();
-    let with_vnulls: bool = kani::any();
     let vnulls = if with_vnulls { Some(NullBuffer::new(BooleanBuffer::new(Buffer::from_vec(vec![vvalid]), 0, V))) } else { None };
     let idx: [i32; K] = kani::any();
     let idx_valid: u8 = kani::any();
-    let with_nulls: bool = kani::any();
     kani::assume(idx_valid < 8);
     let mut j = 0;
     while j < K {
@@ -81,13 +87,16 @@ fn c03_take_bits_and_nulls() {
         j += 1;
     }
     let indices = any_indices_i32(&idx, idx_valid, with_nulls);
-    let out = take_bits::<Int32Type>(&values, &indices);
-    assert!(out.len() == K);
     let k: usize = kani::any();
     kani::assume(k < K);
     let k_valid = !with_nulls || (idx_valid >> k) & 1 == 1;
-    if k_valid {
-        assert!(out.value(k) == ((bits >> (boff + idx[k] as usize)) & 1 == 1), "bit k = selected bit");
+    if check_bits {
+        let out = take_bits::<Int32Type>(&values, &indices);
+        assert!(out.len() == K);
+        if k_valid {
+            assert!(out.value(k) == ((bits >> (boff + idx[k] as usize)) & 1 == 1), "bit k = selected bit");
+        }
+        std::mem::forget(out);
     }
     let onulls = take_nulls::<Int32Type>(vnulls.as_ref(), &indices);
     let src_valid = !with_vnulls || !k_valid || (vvalid >> (idx[k] as usize)) & 1 == 1;
@@ -96,14 +105,44 @@ fn c03_take_bits_and_nulls() {
         Some(n) => assert!(n.len() == K && n.is_valid(k) == want_valid, "null iff index null or selected value null"),
         None => assert!(want_valid, "no validity buffer only if every row is valid"),
     }
-    kani::cover!(with_nulls && with_vnulls && onulls.is_some() && !want_valid && k_valid, "null taken from the values");
-    kani::cover!(onulls.is_none() && with_vnulls);
+    kani::cover!(!(with_nulls && with_vnulls) || (onulls.is_some() && !want_valid && k_valid), "null taken from the values");
+    kani::cover!(onulls.is_none() || !with_vnulls);
     std::mem::forget(onulls);
-    std::mem::forget(out);
     std::mem::forget(indices);
     std::mem::forget(vnulls);
     std::mem::forget(values);
 }
+
+// NOT decided: take_nulls with nullable VALUES (take_bits over the validity bits, then NullBuffer::from_unsliced_buffer).
+// Both instances tried (nullable values with and without nullable indices) exhausted the memory cap inside the
+// drop glue of the validity Buffer that from_unsliced_buffer discards when the result has no null
+// (Arc<Bytes> -> Deallocation::Custom(Arc<dyn Allocation>) -> every Drop impl in the program).  take_bits itself
+// is decided below, NullBuffer construction under C19.
+macro_rules! take_bits_instance {
+    ($name:ident, $boff:expr, $vn:expr, $n:expr, $bits:expr) => {
+        #[kani::proof]
+        #[kani::unwind(6)]
+        #[kani::stub(alloc::fmt::format, stub_format)]
+        fn $name() {
+            take_bits_model($boff, $vn, $n, $bits);
+        }
+    };
+}
+
+//@ tier: quick
+//@ timeout: 600
+//@ functions: arrow_select::take::{take_bits::<Int32Type>, take_nulls::<Int32Type>}
+//@ bound: 3 boolean values at bit offset 0 without validity, 3 Int32 indices with a validity buffer of arbitrary content: output bit k = value bit index k (valid k); take_nulls returns the indices' validity; unwind 6
+//@ assume: valid indices are within range
+//@ stub: alloc::fmt::format -> empty String
+take_bits_instance!(c03_take_bits_nullable_indices_only, 0, false, true, true);
+//@ tier: quick
+//@ timeout: 600
+//@ functions: arrow_select::take::take_bits::<Int32Type>
+//@ bound: 3 boolean values at bit offset 6 (straddling a byte boundary), 3 nullable Int32 indices: output bit k = value bit index k for valid k; unwind 6
+//@ assume: valid indices are within range
+//@ stub: alloc::fmt::format -> empty String
+take_bits_instance!(c03_take_bits_unaligned_values, 6, false, true, true);
 
 //@ tier: quick
 //@ functions: arrow_select::take::take_native::<i8, UInt8Type>
